@@ -389,6 +389,27 @@ def standin_conversions(tier, seed):
                 bad("mixture and kraus describe different maps", channel=ch)
         if not np.allclose(cirq.operation_to_superoperator(ch.on(*cirq.LineQubit.range(cirq.num_qubits(ch)))), S, atol=1e-7):
             bad("operation_to_superoperator differs", channel=ch)
+        # a value that only knows how to apply itself to a density tensor: kraus() must recover the same map (complex Choi matrices included)
+        class OnlyApply:
+            def __init__(self, inner):
+                self.inner = inner
+
+            def _num_qubits_(self):
+                return cirq.num_qubits(self.inner)
+
+            def _apply_channel_(self, args):
+                return cirq.apply_channel(self.inner, args)
+
+        conj_pre = rng.choice([cirq.S, cirq.T, cirq.Y ** 0.5, cirq.I])
+        inner = ch if cirq.num_qubits(ch) != 1 else cirq.KrausChannel([cirq.unitary(conj_pre) @ k @ cirq.unitary(conj_pre).conj().T for k in ks])
+        ks_in = [np.asarray(k, dtype=complex) for k in cirq.kraus(inner)]
+        try:
+            got = cirq.kraus(OnlyApply(inner), None)
+        except Exception as ex:
+            got = None
+            bad(f"kraus() of a value with only _apply_channel_ raised {type(ex).__name__}", channel=inner)
+        if got is not None and not np.allclose(cirq.kraus_to_superoperator(got), cirq.kraus_to_superoperator(ks_in), atol=1e-6):
+            bad("kraus() recovered from _apply_channel_ describes a different map", channel=inner)
         if len({f["failed"] for f in fails}) >= 3:
             break
     return dict(function="cirq-core/cirq/qis/channels.py + protocols/kraus_protocol.py + protocols/mixture_protocol.py", case="conversions",
